@@ -33,7 +33,26 @@ type SSTableStreamWriter struct {
 	lastKey []byte
 }
 
-func (writer *SSTableStreamWriter) Open() error {
+func (writer *SSTableStreamWriter) Open() (err error) {
+	// if any of the steps below fails, the files opened so far are closed again (Close stays callable, it skips them)
+	defer func() {
+		if err == nil {
+			return
+		}
+		if writer.indexWriter != nil {
+			_ = writer.indexWriter.Close()
+			writer.indexWriter = nil
+		}
+		if writer.dataWriter != nil {
+			_ = writer.dataWriter.Close()
+			writer.dataWriter = nil
+		}
+		if writer.metaDataFile != nil {
+			_ = writer.metaDataFile.Close()
+			writer.metaDataFile = nil
+		}
+	}()
+
 	writer.indexFilePath = filepath.Join(writer.opts.basePath, IndexFileName)
 	iWriter, err := rProto.NewWriter(
 		rProto.Path(writer.indexFilePath),
@@ -58,7 +77,6 @@ func (writer *SSTableStreamWriter) Open() error {
 		return fmt.Errorf("error while creating data writer in '%s': %w", writer.opts.basePath, err)
 	}
 
-	// TODO(thomas): if any of these open fails, we should try to at least close the ones we already have opened
 	writer.dataWriter = dWriter
 	err = writer.dataWriter.Open()
 	if err != nil {
@@ -147,7 +165,12 @@ func (writer *SSTableStreamWriter) WriteNext(key []byte, value []byte) error {
 }
 
 func (writer *SSTableStreamWriter) Close() (err error) {
-	err = errors.Join(writer.indexWriter.Close(), writer.dataWriter.Close())
+	if writer.indexWriter != nil {
+		err = writer.indexWriter.Close()
+	}
+	if writer.dataWriter != nil {
+		err = errors.Join(err, writer.dataWriter.Close())
+	}
 
 	if writer.opts.enableBloomFilter && writer.bloomFilter != nil {
 		_, bErr := writer.bloomFilter.WriteFile(filepath.Join(writer.opts.basePath, BloomFileName))
